@@ -46,6 +46,33 @@ def run(repo, rep, tier):
     _through(repo, rep)
     _unit(repo, rep)
     _same_error(repo, rep)
+    # 'strict compilation fails when the template is compiled' -- on every
+    # use while the file is invalid: a changed file lowers the compiled flag
+    # itself (a local 'stale' decision is forgotten when cook() raises)
+    from . import c16
+    L.borrow(repo, rep, "R19.5", "C16", c16._cook_check, ("mtime-compare",))
+    # the deferred error is a pickled copy: pickling a Token keeps pos,
+    # source and file name (no pickling hook that drops one of them)
+    tok = repo.cls("chameleon.tokenize.Token")
+    hooks = [m for m in ("__getstate__", "__reduce__", "__reduce_ex__",
+                         "__copy__", "__deepcopy__", "__getnewargs__",
+                         "__getnewargs_ex__") if m in tok.methods]
+    lossy = []
+    for h in hooks:
+        fn = tok.methods[h]
+        t_ = src(fn.node)
+        cond = any(isinstance(n, (ast.If, ast.IfExp)) for n in ast.walk(
+            fn.node))
+        if cond or not all(x in t_ for x in ("pos", "source", "filename")):
+            lossy.append(h)
+    rep.check(not lossy, "R19.5", tok.qualname, "a pickled / copied Token "
+              "keeps its position, source text and file name "
+              "unconditionally", construct="token-pickle-lossless",
+              detail="hooks: %s, lossy: %s" % (hooks, lossy))
+    # 'raised iff reached': a tal:case expression after a matched case is
+    # not reached -- its cached evaluation sits below the not-cancelled guard
+    from . import c01
+    L.borrow(repo, rep, "R19.5", "C01", c01.order, ("kind:case",))
 
 
 def _consumer(repo, rep):
